@@ -19,7 +19,8 @@ From CG3 Require Import Lib.PyZ Lib.Val Model.IndelMap Spec.IndelMapSpec Spec.In
 From CG3 Require Import Model.IndelMapFixed Model.FeatureMap Spec.FeatureMapSpec Proofs.FeatureMapBounded.
 From CG3 Require Import Proofs.IndelMapProofs Proofs.IndelMapOps Proofs.IndelMapSlice Proofs.IndelMapIndex
                         Proofs.IndelMapMain Proofs.IndelMapBounded Proofs.IndelMapFixedProofs
-                        Proofs.IndelMapMerge Proofs.IndelMapShared Proofs.IndelMapJoin Proofs.FeatureMapProofs.
+                        Proofs.IndelMapMerge Proofs.IndelMapShared Proofs.IndelMapJoin Proofs.FeatureMapProofs
+                        Proofs.FeatureMapCovInv.
 
 (** * construction: string -> map -> string *)
 
@@ -302,33 +303,27 @@ Theorem fm_mul_in_parent : forall (fm : fmap) (k : Z), in_parent fm = true -> 1 
   in_parent (fm_mul fm k) = true.
 Proof. exact FeatureMapProofs.fm_mul_in_parent. Qed.
 
-(** shadow is the complement as soon as inverse is the inverse function *)
-Theorem shadow_of_inverse : forall (fm c : fmap), 0 <= fplen fm -> fm_inverse fm = Ok c ->
-  den c = inverse_den (fplen fm) (den fm) -> in_parent c = true ->
+(** inverse = the inverse function, shadow = the complement: all maps whose real spans
+    do not overlap (the documented precondition; overlapping maps raise "Uninvertable") *)
+
+Theorem fm_inverse_spec : forall fm : fmap, in_parent fm = true -> disjoint_spans fm = true ->
+  exists c, fm_inverse fm = Ok c /\ den c = inverse_den (fplen fm) (den fm) /\
+            fplen c = zlen (den fm) /\ in_parent c = true.
+Proof. exact FeatureMapCovInv.fm_inverse_spec. Qed.
+
+Theorem fm_shadow_spec : forall fm : fmap, 0 <= fplen fm -> in_parent fm = true -> disjoint_spans fm = true ->
   exists g, fm_shadow fm = Ok g /\ den g = map Some (complement (fplen fm) (positions fm)) /\
             fplen g = fplen fm /\ in_parent g = true /\ all_forward g = true.
-Proof. exact FeatureMapProofs.shadow_of_inverse. Qed.
+Proof. exact FeatureMapCovInv.fm_shadow_spec. Qed.
 
-(** covered / inverse / shadow: by enumeration on small maps *)
+(** covered: by enumeration on small maps (<= 2 spans, parent <= 4) *)
 
 Theorem covered_bounded_partial : forall fm : fmap, small_map fm -> 0 <= fplen fm <= 4 ->
   exists c, fm_covered fm = Ok c /\ den c = map Some (positions fm) /\
             separated (-1) (fspans c) = true /\ fplen c = fplen fm /\ in_parent c = true.
 Proof. exact FeatureMapBounded.covered_bounded. Qed.
 
-Theorem inverse_bounded_partial : forall fm : fmap, small_map fm -> 0 <= fplen fm <= 4 ->
-  disjoint_spans fm = true ->
-  exists c, fm_inverse fm = Ok c /\ den c = inverse_den (fplen fm) (den fm) /\
-            fplen c = zlen (den fm) /\ in_parent c = true.
-Proof. exact FeatureMapBounded.inverse_bounded. Qed.
-
-Theorem shadow_bounded_partial : forall fm : fmap, small_map fm -> 0 <= fplen fm <= 4 ->
-  disjoint_spans fm = true ->
-  exists c, fm_shadow fm = Ok c /\ den c = map Some (complement (fplen fm) (positions fm)) /\
-            fplen c = fplen fm /\ in_parent c = true /\ all_forward c = true.
-Proof. exact FeatureMapBounded.shadow_bounded. Qed.
-
-(** * the hypotheses are satisfiable: a concrete well-formed map *)
+(** * the hypotheses are satisfiable: concrete instances *)
 Theorem wf_example : WF (from_mask [false; true; true; false; true; false; false]).
 Proof. exact IndelMapOps.wf_example_2. Qed.
 
